@@ -82,7 +82,7 @@ def check(ctx, src):
     for n in ast.walk(la):
         if isinstance(n, ast.Assign) and any(isinstance(t, ast.Name) and t.id == "new_name" for t in n.targets):
             srcs.append(n.value)
-    ctx.require(len(srcs) >= 1, "ScopeLet.add no longer assigns new_name")
+    ctx.need(len(srcs) >= 1, "ScopeLet.add no longer assigns new_name")
     for v in srcs:
         good = isinstance(v, ast.Call) and isinstance(v.func, ast.Attribute) and v.func.attr == "get_anon_var"
         ctx.check(good, "R-ID-FRESH", f"{comp.sc.rel}|ScopeLet.add|new_name = {norm(v)}",
@@ -165,7 +165,7 @@ def check(ctx, src):
               (q == "HyASTCompiler.get_anon_var" and isinstance(n, ast.AugAssign) and isinstance(n.op, ast.Add) and isinstance(n.value, ast.Constant) and n.value.value == 1)
         ctx.check(okw, "R-ANON-OWNER", f"{rel}|{q}|{norm(n)}", "anon_var_count is written outside __init__/get_anon_var or not by `= 0` / `+= 1`", rel, n.lineno,
                   witness="two temporaries of one compilation unit get the same number", detail=norm(n))
-    ctx.require(len(writes) >= 2, "anon_var_count writes not found")
+    ctx.need(len(writes) >= 2, "anon_var_count writes not found")
     ga = comp.cp.func("HyASTCompiler.get_anon_var")
     ctx.require(ga is not None, "get_anon_var not found")
     body = pyq.body_without_doc(ga)
